@@ -2,6 +2,7 @@ import SpecKitV.Props.AttrsA
 import SpecKitV.Lemmas.Detrend
 import SpecKitV.Props.C01
 import SpecKitV.Lemmas.Delay
+import SpecKitV.Lemmas.DelayEff
 
 #print axioms tf_static_gain
 #print axioms tf_zero_input
@@ -24,3 +25,13 @@ import SpecKitV.Lemmas.Delay
 #print axioms tf_of_pure_delay_arg
 #print axioms tf_delay_perturbed
 #print axioms tf_delay_perturbed_abs
+#print axioms segDFT_effWin
+#print axioms delay_decomposition_eff
+#print axioms delay_bound_eff
+#print axioms delay_bound_any_order
+#print axioms delay_coeffs_identity
+#print axioms delayCoeffs_l1
+#print axioms delay_bound_coeffs_l1
+#print axioms delay_bound_coeffs_l2
+#print axioms delay_bound_any_order_l1
+#print axioms delay_bound_any_order_l2
